@@ -107,6 +107,14 @@ class Inliner:
 
     # ---- the rewrite --------------------------------------------------
     def run(self, im, f, body, depth=0, stack=()):
+        try:
+            c = self.unit.contract(im, f)
+        except Exception:
+            c = None
+        from desugar import desugar, option_oracle
+        body, done = desugar(body, option_oracle(self.src, f))
+        for d in done:
+            self.log.append((f.name, 'Option::' + d + ' written out (R19)'))
         body = self.inline_helpers(im, f, body, depth, stack)
         body = self.inline_closures(im, f, body)
         return body
@@ -147,10 +155,27 @@ class Inliner:
                     recv = ('path', ty)
                 elif i >= 2 and toks[i - 1].text == '.':
                     if toks[i - 2].text != 'self' or (i >= 3 and toks[i - 3].text == '.'):
-                        continue
-                    cands = self.inherent(selfbase, name)
-                    start = i - 2
-                    recv = ('self', None)
+                        # a method call on another receiver: the helper is identified by its name among the un-contracted
+                        # inherent methods of the crate, preferring the caller's own type
+                        allc = [(im2, f2) for im2 in self.src.impls if im2.trait is None for f2 in im2.items
+                                if isinstance(f2, Fn) and f2.name == name and f2.body is not None and self.uncontracted(im2, f2)
+                                and not self.selected(im2, f2)]
+                        same = [(im2, f2) for im2, f2 in allc if _base(im2.selfty) == selfbase]
+                        pick = allc if len(allc) == 1 else same
+                        if len(pick) != 1:
+                            continue
+                        from desugar import _receiver_start
+                        rev = {v: k for k, v in mt.items()}
+                        rs = _receiver_start(toks, rev, i - 1)
+                        if rs is None:
+                            continue
+                        cands = pick
+                        start = rs
+                        recv = ('expr', body[toks[rs].start:toks[i - 1].start].strip())
+                    else:
+                        cands = self.inherent(selfbase, name)
+                        start = i - 2
+                        recv = ('self', None)
                 else:
                     cands = self.free(f.module, name)
                     recv = ('free', None)
@@ -252,12 +277,16 @@ class Inliner:
                 elif re.fullmatch(r"(mut\s+)?self", p):
                     caller_self_ref = False
         uses_self = False
+        const_params = []
         for p in params:
             p = p.strip()
             ms = re.fullmatch(r"(&)?\s*('[a-z_]+\s+)?(mut\s+)?self", p)
             if ms:
                 uses_self = True
-                if recv[0] != 'self':
+                if recv[0] == 'expr':
+                    want_ref = bool(ms.group(1))
+                    pre.append('let %s = %s(%s);' % (selfname, '&' if want_ref else '', recv[1]))
+                elif recv[0] != 'self':
                     # Type::method(receiver, ..): the receiver is the first argument
                     if ai >= len(args):
                         raise ExtractError('call of helper %s: missing receiver' % f2.name)
@@ -286,12 +315,19 @@ class Inliner:
                 post.append('let %s = %s;' % (m.group(2), args[ai]))
                 ai += 1
                 continue
+            from rules import const_real
+            if ty in ('f64', 'f32') and const_real(args[ai].strip()) is not None and not m.group(1):
+                const_params.append((m.group(2), args[ai].strip()))
+                ai += 1
+                continue
             tmp = 'a__%d_%d' % (k, ai)
             pre.append('let %s = %s;' % (tmp, args[ai]))
             post.append('let %s%s: %s = %s;' % (m.group(1) or '', m.group(2), ty, tmp))
             ai += 1
         if ai != len(args):
             raise ExtractError('call of helper %s: %d arguments for %d parameters' % (f2.name, len(args), ai))
+        for nm, txt in const_params:
+            hb = re.sub(r'(?<![A-Za-z0-9_.])%s(?![A-Za-z0-9_])' % nm, '(' + txt + ')', hb)
         if uses_self:
             hb = re.sub(r'(?<![A-Za-z0-9_])self(?![A-Za-z0-9_])', selfname, hb)
         if im2 is not None:
